@@ -77,7 +77,8 @@ def program_diff(label):
 
 def body(chk: core.Check):
     chk.engines.add("CH (CrossHair 0.0.110 + z3), selector-symbolic, realised-untraced")
-    chk.bound("yaml_space", "8 subsets of the mixin APIs x 4 Operations rule sets x 3 IAM rule sets x 3 Locations rule sets x "
+    chk.bound("yaml_space", "8 subsets of the mixin APIs x 4 Operations rule sets x 3 IAM rule sets x 3 Locations rule sets x 3 rule orders "
+              "(grouped, reversed, interleaved) x "
               "unrelated rule on/off x API-defined IAM RPC in {none, first service, later service, other IAM RPC}")
     chk.assumptions.append("IAM mixins yield all-or-nothing when the API defines any IAM RPC (the code's documented reading)")
     chk.stubs.append(gen.PANDOC_STUB_NOTE)
